@@ -33,7 +33,9 @@ impl IoDriver {
     pub(crate) async fn open(&self, path: impl AsRef<Path>) -> IOResult<File> {
         #[cfg(feature = "verif")]
         crate::verif::tap::path_op(crate::verif::tap::Kind::Open, path.as_ref(), None)?;
-        File::from_file(path, |f| f.create(false).append(true).read(true)).await
+        // Not `append(true)`: on Linux pwrite() on a file opened with O_APPEND ignores the offset and
+        // appends to the end of file, but all writes here are positional (offsets are reserved in `size`)
+        File::from_file(path, |f| f.create(false).write(true).read(true)).await
     }
 
     pub(crate) async fn create(&self, path: impl AsRef<Path>) -> IOResult<File> {
